@@ -2362,10 +2362,10 @@ class CursorResult(Result[Unpack[_Ts]]):
         return self.context.isinsert
 
     def _fetchiter_impl(self) -> Iterator[Any]:
-        fetchone = self.cursor_strategy.fetchone
-
         while True:
-            row = fetchone(self, self.cursor)
+            # look the strategy up each time: another fetch method may have
+            # exhausted / closed the result (-> _NO_CURSOR_DQL) meanwhile
+            row = self.cursor_strategy.fetchone(self, self.cursor)
             if row is None:
                 break
             yield row
